@@ -48,13 +48,14 @@ func init() {
 			"(A-sort) every sort that receives unordered data uses a comparator that is a lexicographic chain and reads an identity key of the element type or every field the journal printer prints for it; comparators passed as parameters are resolved through up to 3 caller levels and each alternative is judged separately;",
 			"(A-stage) per Journal.Process call, stage by stage: once a stage appends to a per-day slice in map order, every later callback that receives its elements must be order-free until a stage sorts the slice;",
 			"(A-arrival) the per-file batches of directives reach the journal builder sequentially from a collection sorted by file path, not from per-file goroutines.",
+			"(I-recheck) interning is atomic (membership re-tested under the write lock): one name never gets two objects depending on goroutine scheduling.",
 		},
 		NotDecided: []string{
 			"which of several concurrent errors is reported on stderr (exit status is 1 either way);",
 			"dependence on the wall clock through the default --to;",
 			"byte equality itself (no execution); the classification is per loop body, so an order dependence that needs two cooperating loops in different functions with no shared slice, field or map between them is not seen.",
 		},
-		Rules: []Rule{RuleAOrder, RuleAArrival},
+		Rules: []Rule{RuleAOrder, RuleAArrival, RuleIRecheck},
 	})
 }
 
@@ -107,12 +108,13 @@ func init() {
 			"(D-include-path) include paths are Join(Dir(file being parsed), include text);",
 			"(D-push-once) each parsed file is pushed exactly once on every success path, and each cpr.Seq stage forwards each day exactly once.",
 			"(K-add-commutes) the journal builder accumulates directives order-free: Builder.Add only appends to bags, get-or-creates days and keeps a running minimum/maximum; no error return depends on earlier directives and nothing is deleted from the builder's maps; (K-nested-limit) the include loader has no concurrency limit that a deep include tree could exhaust;",
+			"(D-loader-reject) the loader constructs no error of its own except under the ancestor (include-cycle) test;",
 		},
 		NotDecided: []string{
 			"byte equality of reports under permutation of the directives (no execution);",
 			"commutativity of the checker callbacks within one kind on one day (two opens, or two assertions, of one day are evaluated in arrival order; the verdict does not depend on it for journals the property admits, argued informally only).",
 		},
-		Rules: []Rule{RuleDProcessOrder, RuleKSortedDays, RuleAArrival, RuleAOrder, RuleKAddCommutes, RuleDIncludePath, RuleDPushOnce, RuleKNestedLimit},
+		Rules: []Rule{RuleDProcessOrder, RuleKSortedDays, RuleAArrival, RuleAOrder, RuleKAddCommutes, RuleDIncludePath, RuleDLoaderReject, RuleDPushOnce, RuleKNestedLimit},
 	})
 }
 
@@ -144,12 +146,13 @@ func init() {
 			"(K-both-directions) every price declaration also refreshes the reciprocal, so valuation through an inverted price uses the latest declaration;",
 			"(G1) prices are computed before valuation in every pipeline; (B1) the mirror account is computed from immutable segments.",
 			"(A-order) the loops of the valuation stage over the open positions are complete and order-free: no early success exit after effects, no order-dependent overwrite;",
+			"(G2, K-bfs) the valuation runs before the window filter (positions opened before the window are revalued inside it); the normalized price of a commodity is assigned once, breadth-first from the valuation commodity, so a directly declared price is not replaced by a derived one;",
 		},
 		NotDecided: []string{
 			"the values themselves: which day's price is the latest on or before a date, truncation results, chained prices (C12 decides the price function's determinism, not its value);",
 			"that the accumulated gain equals the sum of daily adjustments (arithmetic).",
 		},
-		Rules: []Rule{RuleKPriceMiss, RuleDStateAllPaths, RuleKReval, RuleKBothDirections, RuleJValuation, RuleG1, RuleB1, RuleAOrder},
+		Rules: []Rule{RuleKPriceMiss, RuleDStateAllPaths, RuleKReval, RuleKBothDirections, RuleKBfs, RuleJValuation, RuleG1, RuleG2, RuleB1, RuleAOrder},
 	})
 	claim(&Property{
 		ID: "C12",
@@ -180,12 +183,13 @@ func init() {
 			"(C-index) every slice and index of the input text has bounds of the reviewed forms (scanner position, a range's own Start/End, line boundaries from bounded scans) or is dominated by a comparison with the text's length;",
 			"(K-text-identity) the text handed to parser.New reaches Scanner.text unchanged, so ranges index the caller's input.",
 			"(K-scope-first) the scope that yields a parse function's node range is opened before the function consumes anything and is never re-assigned to a later scope;",
+			"(C-const-index) no constant index or constant slice bound on a slice or string of unknown length in parser, scanner and directives without a dominating length test (today: none at all);",
 		},
 		NotDecided: []string{
 			"that the tree is the right tree for the text, that children lie within parents and directives are disjoint and increasing (follows from scopes being opened and closed in a nested fashion; K-range-last of the design was not built);",
 			"implicit panics other than the text accesses above (nil maps, type assertions) in the parser.",
 		},
-		Rules: []Rule{RuleELoops, RuleCPanicParser, RuleCOffset, RuleCRange, RuleCIndex, RuleKTextIdentity, RuleKScopeFirst},
+		Rules: []Rule{RuleELoops, RuleCPanicParser, RuleCOffset, RuleCRange, RuleCIndex, RuleCConstIndex, RuleKTextIdentity, RuleKScopeFirst},
 	})
 }
 
@@ -198,13 +202,14 @@ func init() {
 			"(D-div) the amount is divided by a size that a dominating test shows to be non-zero;",
 			"(K-remainder) divisor and parts come from the same partition value (Size() / EndDates()), and the remainder is added in exactly the iteration with index 0;",
 			"(K-accrual-dates) kept legs carry the transaction's date, split legs the partition's end dates.",
+			"(K-acct-predicates) IsIE (the legs that are split) is true exactly for INCOME and EXPENSES and IsAL exactly for ASSETS and LIABILITIES, by evaluating the two method bodies for the five values of the type enumeration;",
 		},
 		NotDecided: []string{
 			"QuoRem's arithmetic (trusted library contract q*n + r = x);",
 			"the calendar partition itself (C11);",
 			"that the accrual account nets to zero numerically (follows from the above by arithmetic, not checked).",
 		},
-		Rules: []Rule{RuleCPosting, RuleCPostings, RuleJPair, RuleFAcctTypes, RuleDDiv, RuleKRemainder, RuleKAccrualDates},
+		Rules: []Rule{RuleCPosting, RuleCPostings, RuleJPair, RuleFAcctTypes, RuleKAcctPredicates, RuleDDiv, RuleKRemainder, RuleKAccrualDates},
 	})
 }
 
